@@ -218,8 +218,20 @@ func sourceTables(qc *QueryCatalog, node ast.Node) ([]*Table, error) {
 	var list *ast.List
 	switch n := node.(type) {
 	case *ast.DeleteStmt:
+		// the relations named in USING are in scope next to the one deleted from, which comes first
 		list = &ast.List{
 			Items: []ast.Node{n.Relation},
+		}
+		if n.UsingClause != nil {
+			using := astutils.Search(n.UsingClause, func(node ast.Node) bool {
+				switch node.(type) {
+				case *ast.RangeVar, *ast.RangeSubselect:
+					return true
+				default:
+					return false
+				}
+			})
+			list.Items = append(list.Items, using.Items...)
 		}
 	case *ast.InsertStmt:
 		list = &ast.List{
